@@ -13,13 +13,15 @@ from __future__ import annotations
 from sexp import Sym
 
 from props import _dfrows_util as U
+
+U.warm()
 from props import c36, c37, c43, c46
 
 PROP = "C42"
 READY = True
 DRIVER = "dm_dfrows"
 LEAN_MODULES = ["DaskModel.Props.C42"]
-CASE_TIMEOUT_S = 30
+CASE_TIMEOUT_S = 60
 LEVEL_TEXT = (
     "Proved in Lean (structure only): schema_commutes — for the modelled expression classes the lazy schema metaOf (kind of "
     "object DataFrame/Series/scalar, column names and order), computed without data, equals the schema of the computed "
